@@ -38,10 +38,21 @@ def judge(w):
     if len(claims) > 1:
         fails.append((("ambiguous",) + tuple(sorted(c.__name__ for c in claims)), "%08x is claimed by %s" % (w, [c.__name__ for c in claims])))
         return "fail", fails
-    if not claims:
-        return "undecoded", ("unassigned" if ref is None else "assigned:" + ref[0])
-    cls = claims[0]
     rb = ref[0].rstrip(".") if ref else "-"          # the architecture's base mnemonic: part of every signature
+    if not claims:
+        # no class claims the word: the decoder entry point must refuse it too (it must not answer from some other state)
+        try:
+            i = p.ppc_mn(w)
+        except Exception:
+            return "undecoded", ("unassigned" if ref is None else "assigned:" + ref[0])
+        fails.append((("decodes-a-word-no-class-claims", type(i).__name__, rb), "%08x: no class of tab_mn claims the word, but ppc_mn(word) returns a %s" % (w, type(i).__name__)))
+        try:
+            if i.bin() != w:
+                fails.append((("bin-differs", type(i).__name__, rb), "%08x (unclaimed word decoded as %s): bin() gives %08x" % (w, type(i).__name__, i.bin())))
+        except Exception:
+            pass
+        return "fail", fails
+    cls = claims[0]
     try:
         i = p.ppc_mn(w)
     except ValueError as e:
